@@ -8,6 +8,7 @@ import (
 	"unsafe"
 
 	"google.golang.org/protobuf/encoding/protowire"
+	"google.golang.org/protobuf/runtime/protoiface"
 )
 
 // Hand-written contracts for internal/impl (shared helpers and prototypes).
@@ -209,9 +210,16 @@ func contract_consumeBytesSlice(b []byte, p pointer, wtyp protowire.Type, f *cod
 // (fieldcontract_pointerCoderFuncs_unmarshal, proved for the leaf coders by their own contracts;
 // unmarshalExtension: trusted). It also stores only fresh slices into the message (C14 guard).
 //
-// @ props C06 C14
+// Unknown fields (C09): the unknown-bytes cell is only touched when unknown fields are to be kept
+// (DiscardUnknown not set) and the message has such a cell; what is appended is the re-encoded tag of
+// the field just parsed followed by the n bytes (within the buffer) that ConsumeFieldValue measured for its value.
+//
+// @ props C06 C09 C14
 // @ mode int
 // @ guard-slice-stores
+// @ callsite mi.mutableUnknownBytes: !opts.DiscardUnknown() && mi.unknownOffset.IsValid()
+// @ callsite protowire.AppendTag: arg[protowire.Number](1) == num && arg[protowire.Type](2) == wtyp
+// @ callsite append: 0 <= n && n <= len(b)
 // @ loop 1 invariant suffixOf(b, old(b)) && start == len(old(b))
 func contract_MessageInfo_unmarshalPointerEager(mi *MessageInfo, b []byte, p pointer, groupTag protowire.Number, opts unmarshalOptions) (out unmarshalOutput, err error) {
 	requires(mi != nil && p.p != nil)
@@ -303,5 +311,28 @@ func contract_MessageInfo_sizePointer(mi *MessageInfo, p pointer, opts marshalOp
 	// ... and the recomputation refreshes the cache
 	ensures(imp(p.p != nil && !(opts.UseCachedSize() && old(mi.sizecacheOffset.IsValid()) && old(*p.Apply(mi.sizecacheOffset).Int32()) > 0) &&
 		mi.sizecacheOffset.IsValid() && size <= math.MaxInt32-1, *p.Apply(mi.sizecacheOffset).Int32() == int32(size+1)))
+	return
+}
+
+// ---------------------------------------------------------------- unknown fields (C09)
+
+// The flag word decides: unknown fields are dropped exactly when UnmarshalDiscardUnknown is set.
+//
+// @ props C09
+func contract_unmarshalOptions_DiscardUnknown(o unmarshalOptions) (r bool) {
+	ensures(r == (o.flags&protoiface.UnmarshalDiscardUnknown != 0))
+	return
+}
+
+// The fast-path entry point hands the caller's flags, resolver and recursion budget to the decoder
+// unchanged.
+//
+// @ props C06 C09
+// @ mode int
+// @ nopanic
+// @ guard-errors
+// @ callsite mi.unmarshalPointer: arg[unmarshalOptions](3).flags == in.Flags && arg[unmarshalOptions](3).depth == in.Depth && arg[protowire.Number](2) == 0 && sameArray(arg[[]byte](0), in.Buf)
+func contract_MessageInfo_unmarshal(mi *MessageInfo, in protoiface.UnmarshalInput) (out protoiface.UnmarshalOutput, err error) {
+	modifiesAll()
 	return
 }
